@@ -322,7 +322,7 @@ META["C10"] = {
     "level_text": "Exploration: preemption-bounded systematic enumeration (bound 1 quick, 2 thorough) on small scenarios of all 20 families plus sampled lock-level interleavings (uniform + PCT); logical deadlock detection is exact on every schedule run.",
     "level_note": "Trusted: baton scheduler (harness/src/conc.rs), the lock hook placement before MutArc::lock, probes.",
     "design_ref": "DESIGN.md §5 C10",
-    "require": {"quick": {"thread_scenarios_covered": 19, "distinct_thread_schedules": 8000, "systematic_scenarios": 40}, "thorough": {"thread_scenarios_covered": 19, "systematic_scenarios": 160}},
+    "require": {"quick": {"thread_scenarios_covered": 20, "distinct_thread_schedules": 8000, "systematic_scenarios": 40}, "thorough": {"thread_scenarios_covered": 20, "systematic_scenarios": 160}},
     "watchdog_s": {"quick": 600, "thorough": 7200},
 }
 
